@@ -514,6 +514,10 @@ func ruleDeleteRefs(c *Ctx) {
 		case k.Table == "NextHopGroup" && origNonNil:
 			// a loop over the members: zero or one iteration in the structural model
 			wantOne := fmt.Sprintf("decNH[%s](%s)", holder, "?")
+			if !deleteNHGLoopOK(info, fi, r.orig, holder) {
+				bad[k.Table] = "removing a group does not release every member's reference in the group's own instance (no loop over the removed group's members calling decNHRefCount)"
+				continue
+			}
 			if gotEv == "" {
 				continue // loop×0 path
 			}
@@ -1012,7 +1016,20 @@ func ruleCounterCallers(c *Ctx) {
 				})
 			}
 		}
+		// the map itself is only ever assigned by the constructor of the holder
+		c.P.fieldWriteOnce(fv)
+		for _, st := range c.P.fieldStores[fv] {
+			n++
+			d := declaredOf(st.Parent())
+			if d == nil || d.Name() != "NewRIBHolder" {
+				nm := "?"
+				if d != nil {
+					nm = displayName(d)
+				}
+				bad = append(bad, nm+" (replaces the whole map)")
+			}
+		}
 		c.Sites += n
-		c.check(len(bad) == 0 && n >= 2, rule, "rib.niRefCounter", "writers of "+fld, "-", fmt.Sprintf("%d map updates, all inside the inc/dec primitives", n), "counter map "+fld+" written outside the primitives: "+strings.Join(bad, ", "))
+		c.check(len(bad) == 0 && n >= 2, rule, "rib.niRefCounter", "writers of "+fld, "-", fmt.Sprintf("%d writes, all inside the inc/dec primitives or the holder's constructor", n), "reference counter "+fld+" written outside the audited primitives: "+strings.Join(bad, ", ")+" — counts of references held by entries elsewhere would be lost")
 	}
 }
